@@ -15,6 +15,7 @@
   real gateway, where they must now pass.
 -/
 import Vgw.Props.C05
+import Vgw.Props.C05Ver
 namespace Vgw.Open.C05
 open Vgw.Model.Conc Vgw.Props.C05 Vgw.Spec.Register
 
@@ -140,3 +141,34 @@ example :
       (List.replicate 9 0 ++ [1, 1] ++ [0])).resp 0 = some .ok := by decide
 
 end Vgw.Open.C05
+
+/-! ## versioned buckets (`Model.ConcVer`) -/
+namespace Vgw.Open.C05Ver
+open Vgw.Model.ConcVer
+
+/-- **the code as it is loses an acknowledged version**: two overlapping writes both archive the
+object that was current, the first publication is replaced by the second without being archived.
+Both writes are acknowledged (ids 2 and 3), id 2 cannot be read. This is the recorded finding
+`conc:versioned:version-not-retrievable:*`, reproduced on the real gateway by `./check C05`. -/
+theorem acked_version_lost :
+    let s := run .byFd (init (some ⟨0, 1⟩) [1, 2]) [0, 1, 0, 1, 0, 1, 0, 1]
+    acked s = [2, 3] ∧ readVer s 2 = none ∧ readVer s 3 = some ⟨⟨2, 3⟩, ⟨2, 3⟩⟩ := by decide
+
+/-- hence the full statement is false for the code as it is. -/
+theorem not_noLostVersion :
+    ¬ Vgw.Props.C05Ver.NoLostVersion (run .byFd (init (some ⟨0, 1⟩) [1, 2]) [0, 1, 0, 1, 0, 1, 0, 1]) := by
+  intro h
+  have := h 2 (by decide)
+  rcases this with ⟨e, he⟩
+  have hn : readVer (run .byFd (init (some ⟨0, 1⟩) [1, 2]) [0, 1, 0, 1, 0, 1, 0, 1]) 2 = none := by decide
+  rw [hn] at he
+  cases he
+
+/-- REGRESSION model `byName` (before 54bf489: size and attribute names taken from the name): the
+slower writer archives object 0 with the shape of object 2 — an incomplete (padded / attribute-less)
+version file. -/
+example : (run .byName (init (some ⟨0, 1⟩) [1, 2]) [0, 1, 1, 1, 0]).arch
+    = [⟨⟨0, 1⟩, ⟨2, 2⟩⟩] ∧
+    ((run .byName (init (some ⟨0, 1⟩) [1, 2]) [0, 1, 1, 1, 0]).arch.all Ver.complete) = false := by decide
+
+end Vgw.Open.C05Ver
